@@ -172,10 +172,17 @@ fn risky(b: &Built, mutated: &[u8]) -> bool {
     v != b.header.dictionary_size && v > (1 << 26)
 }
 
-fn serve_script(s: &Serve, header_len: u64) -> Script {
+/// kind 5: the server sends a few body bytes, then stalls with the connection open (the CLI is then run with
+/// `--http-timeout 1`; the library mirror has no timeout, so there the stall is short and ends in an early close)
+fn stalls(s: &Serve) -> bool {
+    matches!(s, Serve::HttpBad { kind, header: false, .. } if kind % 6 == 5)
+}
+
+fn serve_script(s: &Serve, header_len: u64, l2: bool) -> Script {
     match s {
         Serve::HttpBad { nth, kind, header } => {
-            let act = match kind % 5 {
+            let act = match kind % 6 {
+                5 if !*header => Action { cut_after: Some(2 + *nth as usize * 5), stall_ms: if l2 { 3500 } else { 150 }, ..Default::default() },
                 0 => Action { body: Body::Wrong, ..Default::default() },
                 1 => Action { status: 404, body: Body::Page, ..Default::default() },
                 2 => Action { status: 500, body: Body::Page, ..Default::default() },
@@ -218,7 +225,11 @@ pub fn eval(b: &Built, c: &Case, rec: &mut CaseRec) -> Result<(), String> {
         if c.flag == Flag::VerifyOutput {
             args.push("--verify-output".into());
         }
-        let srv = if c.serve != Serve::Local { Some(http::Server::start(Arc::new(mutated.clone()), serve_script(&c.serve, header_len as u64))) } else { None };
+        if stalls(&c.serve) {
+            args.push("--http-timeout".into());
+            args.push("1".into());
+        }
+        let srv = if c.serve != Serve::Local { Some(http::Server::start(Arc::new(mutated.clone()), serve_script(&c.serve, header_len as u64, true))) } else { None };
         let arch = srv.as_ref().map(|s| s.url()).unwrap_or_else(|| "a.cba".into());
         let (r, out) = clone_cli(&dir, &arch, "o.out", &args, None, None, false, &[]);
         drop(srv);
@@ -240,7 +251,7 @@ pub fn eval(b: &Built, c: &Case, rec: &mut CaseRec) -> Result<(), String> {
             let (reader, _) = l1::local_reader(Arc::new(mutated.clone()), ReadScript::full());
             crate::util::block_on(l1::clone_mirror(reader, &opts))
         } else {
-            let srv = http::Server::start(Arc::new(mutated.clone()), serve_script(&c.serve, header_len as u64));
+            let srv = http::Server::start(Arc::new(mutated.clone()), serve_script(&c.serve, header_len as u64, false));
             let url: reqwest::Url = srv.url().parse().unwrap();
             let reader = bitar::archive_reader::HttpReader::from_url(url);
             crate::util::block_on(l1::clone_mirror(reader, &opts))
@@ -292,6 +303,7 @@ pub fn eval(b: &Built, c: &Case, rec: &mut CaseRec) -> Result<(), String> {
     rec.class(match &c.serve {
         Serve::Local => "local",
         Serve::Http => "http_honest",
+        Serve::HttpBad { .. } if stalls(&c.serve) => "http_server_stalls_mid_body",
         Serve::HttpBad { .. } => "http_misbehaving",
     });
     rec.class(match &c.corr {
@@ -350,7 +362,7 @@ fn serve_strategy() -> impl Strategy<Value = Serve> {
     prop_oneof![
         4 => Just(Serve::Local),
         1 => Just(Serve::Http),
-        3 => (0u8..3, 0u8..5, prop::bool::weighted(0.2)).prop_map(|(nth, kind, header)| Serve::HttpBad { nth, kind, header }),
+        3 => (0u8..3, prop_oneof![20 => 0u8..5, 1 => Just(5u8)], prop::bool::weighted(0.2)).prop_map(|(nth, kind, header)| Serve::HttpBad { nth, kind, header }),
     ]
 }
 fn case_strategy() -> impl Strategy<Value = Case> {
@@ -385,7 +397,7 @@ impl Prop for C04 {
     fn meta(&self, _tier: Tier) -> Meta {
         Meta {
             level: "fault_enumeration",
-            rule: "variant 'exh': for a pool of generated archives (hash length >= 8, all codecs, with and without a seed) EVERY single-bit flip and EVERY truncation length is applied and the archive cloned (library mirror; flips that make the dictionary-size field huge are run through the real CLI in its own process); 'rand': proptest over (archive, corruption in {bit flip, truncation, multi-byte overwrite, payload swap between two descriptors, trailing garbage, dictionary-size edit, none}, flag in {none, --verify-header right / wrong / one-bit-off full-length checksum, --verify-output}, transport in {local, honest HTTP, HTTP answering the n-th request with wrong bytes / 404 or 500 page of the requested length / short body / empty body}), 8% through the real CLI. Oracle: the clone fails, or its output equals the source; any change below the header length must be rejected at open; with an expected header checksum the clone proceeds iff it is the archive's. Non-trivial = the altered byte lies in the header or in the stored range of a chunk the clean clone fetches (measured with the recording reader), or the server misbehaves, or the expected checksum is wrong; distinct by Blake2 of the canonical case.".into(),
+            rule: "variant 'exh': for a pool of generated archives (hash length >= 8, all codecs, with and without a seed) EVERY single-bit flip and EVERY truncation length is applied and the archive cloned (library mirror; flips that make the dictionary-size field huge are run through the real CLI in its own process); 'rand': proptest over (archive, corruption in {bit flip, truncation, multi-byte overwrite, payload swap between two descriptors, trailing garbage, dictionary-size edit, none}, flag in {none, --verify-header right / wrong / one-bit-off full-length checksum, --verify-output}, transport in {local, honest HTTP, HTTP answering the n-th request with wrong bytes / 404 or 500 page of the requested length / short body / empty body / a few body bytes and then silence on an open connection (the CLI runs with --http-timeout 1)}), 8% through the real CLI (HTTP clones there get --http-retry-count 1..3 in 1 run of 4). Oracle: the clone fails, or its output equals the source; any change below the header length must be rejected at open; with an expected header checksum the clone proceeds iff it is the archive's. Non-trivial = the altered byte lies in the header or in the stored range of a chunk the clean clone fetches (measured with the recording reader), or the server misbehaves, or the expected checksum is wrong; distinct by Blake2 of the canonical case.".into(),
             assumptions: vec![
                 "expected header checksums are full 64-byte values (prefix equality of abbreviated values is HashSum's documented equality and outside the domain)".into(),
                 "hash collisions at >= 8 bytes are assumed not to occur".into(),
